@@ -176,7 +176,17 @@ class Outcome:
 
 
 class Explorer:
-    def __init__(self, func, atom_of=None, tracked=None, max_states=40000, follow_implicit_exc=False, frozen=None, track_locals=True, inline_depth=2):
+    def __init__(self, func, atom_of=None, tracked=None, max_states=40000, follow_implicit_exc=False, frozen=None, track_locals=True, inline_depth=2,
+                 enter=None, call_trace=None, enter_depth=2, bind_defaults=False):
+        """enter: predicate(qualname) -> bool; a statement-position call `self.m(..)` / `f(..)` / `x = self.m(..)` to a function of the
+        tree it accepts is *entered*: the callee is explored with the caller's `self.*` valuation and its outcomes (changed
+        `self.*`, return value, raised class, traced calls) continue the caller's exploration -- effects included, unlike the
+        value-only `_inline`.  call_trace: {call target: fn(ex, call, env) -> value}; every evaluated call to such a target, in
+        the function or in an entered callee, appends (target, value) to the ordered trace env["@trace"]."""
+        self.enter = enter
+        self.bind_defaults = bind_defaults      # run() from the entry: parameters the valuation does not mention take their default
+        self.call_trace = call_trace or {}
+        self.enter_depth = enter_depth
         self.func = func
         self.repo = func.module._repo
         self.cfg = func.cfg
@@ -687,6 +697,109 @@ class Explorer:
                 return UNKNOWN
         return first
 
+    # ------------------------------------------------------ calls with effects
+    TRACE = "@trace"
+
+    def _trace_calls(self, node, env):
+        hits = []
+        for root in (node.cover or [node.ast]):
+            for c in ast.walk(root):
+                if isinstance(c, ast.Call):
+                    q = self.repo.call_target(self.func.module, self.func, c)
+                    if q in self.call_trace:
+                        hits.append((getattr(c, "_ord", 0), q, c))
+        if not hits:
+            return env
+        env = dict(env)
+        tr = env.get(self.TRACE, ())
+        for _o, q, c in sorted(hits, key=lambda h: h[0]):
+            try:
+                v = self.call_trace[q](self, c, env)
+            except Exception:
+                v = UNKNOWN
+            tr = tr + ((q, "U" if v is UNKNOWN else v),)
+        env[self.TRACE] = tr
+        return env
+
+    def _enter_call(self, node, env):
+        """[(kind, env)] continuing the caller after an entered call (kind: 'return' | 'noreturn' | raised class), or None
+        when the statement is not an enterable call"""
+        st = node.ast
+        call, target = None, None
+        if isinstance(st, ast.Expr) and isinstance(st.value, ast.Call):
+            call = st.value
+        elif isinstance(st, ast.Assign) and len(st.targets) == 1 and isinstance(st.value, ast.Call) and isinstance(st.targets[0], (ast.Name, ast.Attribute)):
+            call, target = st.value, st.targets[0]
+        elif isinstance(st, ast.Return) and isinstance(st.value, ast.Call):
+            call = st.value
+        if call is None or self.enter_depth <= 0:
+            return None
+        q = self.repo.call_target(self.func.module, self.func, call)
+        if not q or not self.repo.has_func(q) or not self.enter(q):
+            return None
+        callee = self.repo.func(q)
+        if callee is self.func or any(isinstance(n, (ast.Yield, ast.YieldFrom)) for n in ast.walk(callee.node)):
+            return None
+        a = callee.node.args
+        if a.vararg is not None or a.kwarg is not None or any(isinstance(x, ast.Starred) for x in call.args) or any(k.arg is None for k in call.keywords):
+            return None
+        params = [x.arg for x in a.args]
+        on_self = callee.cls is not None and params and params[0] == "self" and isinstance(call.func, ast.Attribute) and isinstance(call.func.value, ast.Name) and call.func.value.id == "self"
+        if callee.cls is not None and not on_self:
+            return None
+        names = params[1:] if on_self else params
+        if len(call.args) > len(names):
+            return None
+        env2 = {}
+        for k, v in env.items():
+            if k in (HEAP, self.TRACE) or (on_self and k.startswith("self.")) or (k.startswith("gunicorn.") and "." in k) or k.isupper():
+                env2[k] = v
+        bound = set()
+        for nm, arg in zip(names, call.args):
+            env2[nm] = self.ev(arg, env)
+            bound.add(nm)
+        for kw in call.keywords:
+            if kw.arg not in names and kw.arg not in [x.arg for x in a.kwonlyargs]:
+                return None
+            env2[kw.arg] = self.ev(kw.value, env)
+            bound.add(kw.arg)
+        sub = Explorer(callee, atom_of=self.atom_of, tracked=[t for t in self.tracked if t.startswith("self.") or t.startswith("gunicorn.")], max_states=20000,
+                       follow_implicit_exc=False, inline_depth=self.inline_depth, enter=self.enter, call_trace=self.call_trace, enter_depth=self.enter_depth - 1)
+        defaults = dict(zip(names[len(names) - len(a.defaults):], a.defaults)) if a.defaults else {}
+        for x, d in zip(a.kwonlyargs, a.kw_defaults):
+            if d is not None:
+                defaults[x.arg] = d
+        for nm in list(names) + [x.arg for x in a.kwonlyargs]:
+            if nm not in bound:
+                if nm not in defaults:
+                    return None
+                env2[nm] = sub.ev(defaults[nm], {})
+        try:
+            outs = sub.run(callee.cfg.entry, env2)
+        except AnalysisError:
+            return None
+        self.unknown_tests += sub.unknown_tests
+        res = []
+        for o in outs:
+            new = dict(env)
+            for k, v in o.env.items():
+                if k in (HEAP, self.TRACE) or (on_self and k.startswith("self.")) or (k.startswith("gunicorn.") and "." in k):
+                    if k in env or k in self.tracked or k in (HEAP, self.TRACE) or k in sub.tracked:
+                        new[k] = v
+            if o.kind == "return":
+                if target is not None:
+                    d = o.detail
+                    val = None if d == "fall-off" else (UNKNOWN if (isinstance(d, str) and d.startswith("expr:")) else d)
+                    tk = self.key_of(target)
+                    if tk is not None:
+                        new[tk] = val
+                res.append(("return", new))
+            elif o.kind == "raise":
+                res.append((str(o.detail) if o.detail else "Exception", new))
+            elif o.kind == "noreturn":
+                res.append(("noreturn", new))
+        return res or None
+
     # ------------------------------------------------------------- effects
     def apply(self, node, env):
         try:
@@ -949,6 +1062,17 @@ class Explorer:
         """Explore from `start` (node) with valuation env. Returns list of Outcome."""
         watch = watch or {}
         probes = probes or {}
+        if self.bind_defaults and start is self.cfg.entry:
+            a = self.func.node.args
+            pos = [x.arg for x in a.args]
+            dm = dict(zip(pos[len(pos) - len(a.defaults):], a.defaults)) if a.defaults else {}
+            for x, d in zip(a.kwonlyargs, a.kw_defaults):
+                if d is not None:
+                    dm[x.arg] = d
+            env = dict(env)
+            for nm, d in dm.items():
+                if nm not in env:
+                    env[nm] = self.ev(d, {})
         outcomes = []
         seen = set()
         stack = [(start, dict(env), frozenset(), (), start_label)]
@@ -1054,6 +1178,25 @@ class Explorer:
                         if l == lab:
                             stack.append((b, env2, events, path, None))
                     continue
+            if self.enter is not None and node.kind == "stmt":
+                succ = self._enter_call(node, env)
+                if succ is not None:
+                    for kind_, env_s in succ:
+                        if kind_ == "return":
+                            for b, l in node.out:
+                                if l != "exc" and (only_label is None or l == only_label):
+                                    stack.append((b, env_s, events, path, None))
+                        elif kind_ == "noreturn":
+                            stack.append((g.noreturn, env_s, events, path, None))
+                        else:
+                            targets = [b for b, l in node.out if l == "exc"]
+                            short = kind_.rsplit(".", 1)[-1]
+                            hs = [b for b in targets if b.kind == "handler" and (b.ast.type is None or short in ast.unparse(b.ast.type) or any(x in ast.unparse(b.ast.type) for x in ("Exception", "BaseException")))]
+                            for b in (hs[:1] or targets):
+                                stack.append((b, env_s, events, path, None))
+                    continue
+            if self.call_trace and node.kind in ("stmt", "test", "for", "with") and node.ast is not None:
+                env = self._trace_calls(node, env)
             env2 = self.apply(node, env)
             explicit_raise = node.always_raises
             if "__raise__" in env2:
